@@ -9,3 +9,5 @@ pub mod toyref;
 mod c01;
 #[cfg(kani)]
 mod c08;
+#[cfg(kani)]
+mod c04;
